@@ -133,6 +133,34 @@ def d3_blocks(ctx, lin):
     asg = [s for s in statements(f) if isinstance(s, ast.Assign) and isinstance(s.targets[0], ast.Subscript) and unparse(s.targets[0].value) in ('A', 'B')]
     vals = sorted((unparse(s.targets[0].value), unparse(s.value)) for s in asg)
     ctx.check(rule, 'linalg.py:_mat_mat_op#parts', vals == [('A', 'entry'), ('A', 'entry.real'), ('B', '0.0'), ('B', 'entry.imag')], 'A = real parts, B = imaginary parts (0 for real entries)', 'parts %s' % vals)
+    # entries with a real and an imaginary part (CObs, complex numbers, numpy complex scalars) must go through .real/.imag
+    cond = [s_ for s_ in statements(f) if isinstance(s_, ast.If) and any(isinstance(x, ast.Assign) and unparse(x.targets[0]).startswith('A[') for x in s_.body)]
+    if len(cond) != 1:
+        ctx.unrec(rule, 'linalg.py:_mat_mat_op#entry-dispatch', 'entry dispatch not found')
+    else:
+        kinds = {'CObs': {'hasattr': True, 'classes': {'CObs'}}, 'complex': {'hasattr': True, 'classes': {'complex'}}, 'Obs': {'hasattr': False, 'classes': {'Obs'}},
+                 'float': {'hasattr': True, 'classes': {'float'}}}
+
+        def ev(e, kind):
+            if isinstance(e, ast.BoolOp):
+                vs = [ev(v, kind) for v in e.values]
+                if any(v is None for v in vs):
+                    return None
+                return all(vs) if isinstance(e.op, ast.And) else any(vs)
+            if isinstance(e, ast.Call) and call_name(e) == 'hasattr' and len(e.args) == 2 and isinstance(e.args[1], ast.Constant) and e.args[1].value in ('real', 'imag'):
+                return kinds[kind]['hasattr']
+            if isinstance(e, ast.Call) and call_name(e) == 'isinstance' and len(e.args) == 2:
+                cls = e.args[1]
+                names = {unparse(x) for x in (cls.elts if isinstance(cls, ast.Tuple) else [cls])}
+                return bool(names & kinds[kind]['classes'])
+            return None
+        res = {k: ev(cond[0].test, k) for k in kinds}
+        bad = [k for k in ('CObs', 'complex') if res[k] is False] + [k for k in ('Obs',) if res[k] is True]
+        if any(v is None for v in res.values()):
+            ctx.unrec(rule, 'linalg.py:_mat_mat_op#entry-dispatch', 'cannot evaluate %s' % unparse(cond[0].test))
+        else:
+            ctx.check(rule, 'linalg.py:_mat_mat_op#entry-dispatch', not bad, 'every entry with a real and an imaginary part is split through .real / .imag, plain observables are taken as real',
+                      'entries of kind %s take the wrong branch of `%s`' % (bad, unparse(cond[0].test)), lin.loc(cond[0]))
     oa, ob = find_def(f, 'op_A'), find_def(f, 'op_B')
     dm = find_def(f, 'dim')
     ok = len(oa) == 1 and len(ob) == 1 and unparse(oa[0].value) == 'op_big_matrix[0:dim // 2, 0:dim // 2]' and unparse(ob[0].value) == 'op_big_matrix[dim // 2:, 0:dim // 2]' \
@@ -272,6 +300,7 @@ SELFTEST = [
     ('part-selection', 'pyerrors/linalg.py', "            return multi_dot(operands, 'Imag')", "            return multi_dot(operands, 'Real')", 'C10-D2'),
     ('block-sign', 'pyerrors/linalg.py', "big_matrix = np.block([[A, -B], [B, A]])", "big_matrix = np.block([[A, B], [-B, A]])", 'C10-D3'),
     ('block-extraction', 'pyerrors/linalg.py', "op_B = op_big_matrix[dim // 2:, 0: dim // 2]", "op_B = op_big_matrix[0: dim // 2, dim // 2:]", 'C10-D3'),
+    ('entry-dispatch-isinstance', 'pyerrors/linalg.py', "            if hasattr(entry, 'real') and hasattr(entry, 'imag'):\n                A[n, m] = entry.real", "            if isinstance(entry, CObs):\n                A[n, m] = entry.real", 'C10-D3'),
     ('row-major', 'pyerrors/linalg.py', "row.append(x[j + dim * i])", "row.append(x[i + dim * j])", 'C10-D3'),
     ('det-is-inv', 'pyerrors/linalg.py', "return _scalar_mat_op(anp.linalg.det, x)", "return _scalar_mat_op(anp.linalg.slogdet, x)", 'C10-D4'),
     ('eigv-component', 'pyerrors/linalg.py', "    v = derived_observable(lambda x, **kwargs: anp.linalg.eigh(x)[1], obs)\n    return v", "    v = derived_observable(lambda x, **kwargs: anp.linalg.eigh(x)[0], obs)\n    return v", 'C10-D4'),
